@@ -91,7 +91,10 @@ class Ctx(object):
         if self._viol_printed < 10:
             self._viol_printed += 1
             rp = self.save_replay(signature, what, replay)
-            print(f'VIOLATION property={self.pid} replay={rp}', flush=True)
+            # extension suites (X..: behaviour outside the 20 listed statements) report disagreements
+            # under their own tag: they are not claims about a listed property
+            tag = 'VIOLATION property' if not self.pid.startswith('X') else 'DISAGREEMENT suite'
+            print(f'{tag}={self.pid} replay={rp}', flush=True)
             print(f'  what: {what}'[:2000], flush=True)
         return True
 
@@ -112,8 +115,9 @@ class Ctx(object):
             'coverage': self.cov, 'assumptions': self.assumptions,
             'wall_s': round(time.time() - self.t0, 2), 'violations': self.violations,
         }
-        EVIDENCE_DIR.mkdir(exist_ok=True)
-        with open(EVIDENCE_DIR / f'{self.pid}.json', 'w') as f:
+        edir = EVIDENCE_DIR if not self.pid.startswith('X') else ROOT / 'evidence_ext'
+        edir.mkdir(exist_ok=True)
+        with open(edir / f'{self.pid}.json', 'w') as f:
             json.dump(ev, f, indent=1, default=str)
         shutil.rmtree(self.scratch, ignore_errors=True)
         return 1 if self.violations else 0
